@@ -82,6 +82,8 @@ def case_strategy(draw):
 
 
 def evaluate(case):
+    if case.get("large"):
+        return eval_large(case)
     cfg = sim.norm_cfg(case["cfg"])
     sess = None
     if case.get("before"):
@@ -280,6 +282,103 @@ def _evaluate(case, cfg, s):
     return Result(vs, nt, classes, {"kinds": kinds[:6] + kinds[-2:], "n_fd": nfd, "eff": eff, "size": size, "max_pkt": cfg["max_pkt"]}, nt_key=(key, nfd))
 
 
+# ------------------------------------------------------------------ files around and beyond 4 GiB (64-bit PDUs)
+class _SparseStore:
+    """Factory for an in-memory filestore that *claims* one file of the given size and reads zeros on demand."""
+
+    @staticmethod
+    def make(size):
+        from ..memfs import MEM_ROOT, MemFilestore
+
+        class Sparse(MemFilestore):
+            big = MEM_ROOT + "/big.bin"
+
+            def file_exists(self, path):
+                return str(path) == self.big or super().file_exists(path)
+
+            def file_size(self, f):
+                return size
+
+            def read_data(self, file, offset, read_len=None):
+                return bytes(max(0, min(read_len, size - offset)))
+
+        return Sparse()
+
+
+def eval_large(case):
+    """The source stream of a file whose size sits on / beyond the 32-bit boundary: large-file flag on every PDU iff the
+    size needs 64 bits, 64-bit size / offset fields, contiguous tiling, lengths within max_packet_len."""
+    from pathlib import Path
+
+    from cfdppy.request import PutRequest
+    from spacepackets.util import UnsignedByteField
+
+    cfg = sim.norm_cfg(case["cfg"])
+    size = case["size"]
+    vfs = _SparseStore.make(size)
+    rig = sim.source_rig(cfg, vfs=vfs)
+    w, sw, crc = sim.id_width(cfg), cfg["seq_width"] // 8, cfg["pdu_crc"]
+    large = size > 0xFFFFFFFF
+    eff = cfg["max_pkt"] - models.fd_overhead(w, sw, crc, large)
+    if cfg["max_seg"] is not None and cfg["max_seg"] < eff:
+        eff = cfg["max_seg"]
+    vs = []
+    try:
+        rig.h.put_request(PutRequest(UnsignedByteField(cfg["dst_id"][1], cfg["dst_id"][0]), Path(vfs.big), Path("/__cfdp_mem__/d.bin"), sim.MODES[sim.eff_mode(cfg)], False))
+    except Exception as e:  # noqa: BLE001
+        return Result([verdict("put", f"C07/large/put-raised/{type(e).__name__}", repr(e))], True, ["large"])
+    nxt, nfd, eof, md = 0, 0, None, None
+    for _ in range(size // max(eff, 1) + 10):
+        res = rig.call(None)
+        if res.exc is not None:
+            vs.append(verdict("stream", f"C07/large/exception/{type(res.exc).__name__}", repr(res.exc)[:200]))
+            break
+        stop = False
+        for p in res.out:
+            k = sim.pdu_kind(p)
+            if int(p.pdu_header.pdu_conf.file_flag) != (1 if large else 0) and not vs:
+                vs.append(verdict("large-file-flag", f"C07/large/file-flag/{k}/{'needs64' if large else 'fits32'}", f"size {size}: {k} PDU has large-file flag {int(p.pdu_header.pdu_conf.file_flag)}"))
+            if k == "FD":
+                ln = len(p.file_data)
+                if p.offset != nxt or ln < 1 or ln > eff or (nxt + ln < size and ln != eff):
+                    if not vs:
+                        vs.append(verdict("tiling", "C07/large/tiling", f"FD offset {p.offset} len {ln}, expected offset {nxt}, segment {eff}, size {size}"))
+                if nfd < 2 or nxt + ln >= size or nfd % 9973 == 0:
+                    raw = bytes(p.pack())
+                    if len(raw) > cfg["max_pkt"] and not vs:
+                        vs.append(verdict("max-packet-len", "C07/large/fd-too-long", f"{len(raw)} > {cfg['max_pkt']}"))
+                    if len(raw) != models.fd_overhead(w, sw, crc, large) + ln and not vs:
+                        vs.append(verdict("conformant", "C07/large/fd-length", f"{len(raw)} != overhead {models.fd_overhead(w, sw, crc, large)} + {ln}"))
+                nxt += ln
+                nfd += 1
+            elif k == "MD":
+                md = p
+            elif k == "EOF":
+                eof = p
+                stop = True
+        if stop or vs or rig.h.states.state.name == "IDLE":
+            break
+    if not vs:
+        if md is None or md.file_size != size:
+            vs.append(verdict("metadata", "C07/large/metadata-size", f"{None if md is None else md.file_size} want {size}"))
+        elif eof is None or eof.file_size != size or nxt != size:
+            vs.append(verdict("eof", "C07/large/eof-size", f"EOF {None if eof is None else eof.file_size}, file data up to {nxt}, want {size}"))
+        elif len(bytes(eof.pack())) != models.eof_len(w, sw, crc, large):
+            vs.append(verdict("conformant", "C07/large/eof-length", f"{len(bytes(eof.pack()))} want {models.eof_len(w, sw, crc, large)}"))
+    return Result(vs, True, ["large", "large:needs64" if large else "large:fits32"], {"size": size, "file_data_pdus": nfd, "segment": eff})
+
+
+def large_cases(shard, nshards):
+    idx = 0
+    for size in (0xFFFFFFFF - 1, 0xFFFFFFFF, 0x100000000, 0x100000001, 0x100000000 + 70000):
+        for w, sw, crc, mode, max_seg in [(1, 8, False, "NAK", None), (2, 16, True, "ACK", None), (8, 32, False, "NAK", 60000), (4, 16, True, "ACK", 65000)]:
+            idx += 1
+            if idx % nshards != shard:
+                continue
+            cfg = {"mode": mode, "closure": False, "crc_type": "NULL_CHECKSUM", "max_seg": max_seg, "max_pkt": 65535, "src_id": [w, 1], "dst_id": [w, 2], "seq_width": sw, "pdu_crc": crc}
+            yield {"large": True, "size": size, "cfg": cfg}
+
+
 def replay(case):
     return evaluate(case).verdicts
 
@@ -289,6 +388,11 @@ PARAMS = {"quick": 1500, "thorough": 30000}
 
 def shard(ctx):
     out = Out()
+    from ..core import enum_search
+
+    enum_search(out, ctx["known"], large_cases(ctx["shard"], ctx["nshards"]), evaluate)
+    out.extra["large_file_cases"] = out.evaluations
+    out.extra["large_file_part"] = "sizes 2^32-2, 2^32-1, 2^32, 2^32+1, 2^32+70000 x 4 header configurations, sparse in-memory source file, null checksum"
     hyp_search(out, ctx["known"], case_strategy(), evaluate, PARAMS[ctx["tier"]], ctx["seed"])
     sim.cleanup_sandbox()
     return out
